@@ -75,6 +75,62 @@ fn craft_alias_file(r: &mut Rng) -> Vec<u8> {
     f.extend_from_slice(format!("trailer\n<</Size {}/Root 1 0 R>>\nstartxref\n{}\n%%EOF", offs.len() + 1, x).as_bytes());
     f
 }
+/// several object streams whose member lists overlap; the cross-reference stream gives each member number a
+/// compressed entry naming ANY of its holders, a free entry, or no entry at all
+fn craft_multi_container_file(r: &mut Rng) -> Vec<u8> {
+    let k = 2 + r.usize(4);                                   // containers 2..5, numbered 2..2+k
+    let pool: Vec<u32> = (0..3 + r.usize(6)).map(|i| 20 + i as u32).collect();
+    let mut f = b"%PDF-1.5\n".to_vec(); let mut offs: Vec<usize> = vec![];
+    offs.push(f.len()); f.extend_from_slice(b"1 0 obj\n<</Type/Catalog>>\nendobj\n");
+    let mut holders: std::collections::BTreeMap<u32, Vec<(u32, u16)>> = Default::default();   // number -> (container, index)
+    for ci in 0..k {
+        let cnum = 2 + ci as u32;
+        let n = 1 + r.usize(5);
+        let mut body = vec![]; let mut index = String::new();
+        for j in 0..n { let m = *r.pick(&pool); index.push_str(&format!("{} {} ", m, body.len())); body.extend_from_slice(format!("(c{} i{} n{}) ", cnum, j, m).as_bytes()); holders.entry(m).or_default().push((cnum, j as u16)); }
+        let first = index.len(); let mut content = index.into_bytes(); content.extend_from_slice(&body);
+        offs.push(f.len());
+        f.extend_from_slice(format!("{} 0 obj\n<</Type/ObjStm/N {}/First {}/Length {}>>\nstream\n", cnum, n, first, content.len()).as_bytes());
+        f.extend_from_slice(&content); f.extend_from_slice(b"\nendstream\nendobj\n");
+    }
+    let xnum = 2 + k as u32; let xoff = f.len();
+    let mut rows: Vec<u8> = vec![]; let mut index_arr = format!("0 {}", xnum + 1);
+    let row = |rows: &mut Vec<u8>, t: u8, a: u16, b: u16| { rows.push(t); rows.extend_from_slice(&a.to_be_bytes()); rows.extend_from_slice(&b.to_be_bytes()); };
+    row(&mut rows, 0, 0, 0);
+    for o in &offs { row(&mut rows, 1, *o as u16, 0); }
+    row(&mut rows, 1, xoff as u16, 0);
+    for (m, hs) in &holders {
+        match r.below(4) {
+            0 => {}                                            // no entry at all
+            1 => { row(&mut rows, 0, 0, 0); index_arr.push_str(&format!(" {} 1", m)); }          // free
+            _ => { let (cn, ix) = *r.pick(hs); row(&mut rows, 2, cn as u16, ix); index_arr.push_str(&format!(" {} 1", m)); }
+        }
+    }
+    f.extend_from_slice(format!("{} 0 obj\n<</Type/XRef/Size 40/W[1 2 2]/Index[{}]/Root 1 0 R/Length {}>>\nstream\n", xnum, index_arr, rows.len()).as_bytes());
+    f.extend_from_slice(&rows); f.extend_from_slice(format!("\nendstream\nendobj\nstartxref\n{}\n%%EOF", xoff).as_bytes());
+    f
+}
+/// every permutation of the container blocks (hook H1) must load the same document as the default order, = the model
+fn perm_independent(c: &mut Ctx, file: &[u8], stream: &str, max_perm: usize, perms_run: &mut u64) {
+    let base = match load_with_order(file, None) { Ok(d) => d, Err(e) => { c.oracle_fail("load-error", &format!("{}: {}", stream, e), json!({"file": hex(file)})); return; } };
+    let n = LAST_CONTAINERS.lock().unwrap().len();
+    c.count(&format!("{}.containers_{}", stream, n.min(7)));
+    if n < 2 || n > max_perm { return; }
+    let perms = permutations(n);
+    for (pi, p) in perms.iter().enumerate() {
+        *perms_run += 1;
+        match load_with_order(file, Some(p.clone())) {
+            Ok(d) => {
+                if d != base { c.oracle_fail("order-dependent", &format!("{}: merge order {:?} loads a different document than the default order", stream, p), json!({"file": hex(file), "order": p})); return; }
+                if pi < 4 || pi + 1 == perms.len() {
+                    let reply = { *MERGE_ORDER.lock().unwrap() = Some(p.clone()); let s = load_reply(file); *MERGE_ORDER.lock().unwrap() = None; s };
+                    c.corr(format!("load_perm {} {}", p.iter().map(|x| x.to_string()).collect::<Vec<_>>().join(","), hex_tok(file)), reply);
+                }
+            }
+            Err(e) => { c.oracle_fail("order-dependent", &format!("{}: merge order {:?}: {}", stream, p, e), json!({"file": hex(file)})); return; }
+        }
+    }
+}
 /// the document must be the same on every pool size, repeatedly, and equal to the model's sequential semantics
 fn order_independent(c: &mut Ctx, file: &[u8], stream: &str, pool_loads: &mut u64) {
     let base = match load_with_order(file, None) { Ok(d) => d, Err(e) => { c.oracle_fail("load-error", &format!("{}: {}", stream, e), json!({"file": hex(file)})); return; } };
@@ -157,6 +213,13 @@ run in the no-default-features (sequential) build. Non-trivial = file with >= 2 
         let Some(mut r) = c.case("alias_entries", i) else { continue };
         let file = craft_alias_file(&mut r);
         order_independent(c, &file, "alias_entries", &mut pool_loads);
+    }
+    // ---- overlapping member lists with compressed / free / missing cross-reference entries
+    for i in 0..c.n(80, 800) {
+        let Some(mut r) = c.case("multi_container", i) else { continue };
+        let file = craft_multi_container_file(&mut r);
+        perm_independent(c, &file, "multi_container", max_perm_containers, &mut perms_run);
+        if i % 4 == 0 { order_independent(c, &file, "multi_container", &mut pool_loads); } else { c.corr(format!("load {}", hex_tok(&file)), load_reply(&file)); }
     }
     // ---- witness F-C08-a: the same number in two containers -> two orders, two documents
     if let Some(mut r) = c.case("witness", 0) {
